@@ -389,6 +389,29 @@ def jobs_c20(prop, tier, seed):
                  150 if tier == "quick" else 400)
 
 
+def model_joint_execs(limit, seed):
+    """the joint stack driven along the behaviours of the Joint design model (MCJointGen): raw requests and releases
+    on a joint object of 104 bytes (element type e3) whose block lies at residue 0 / 8 modulo 16; the model predicts
+    the outcome of every step and the offsets of the live pieces (header key jexpect)"""
+    from . import models
+    beh, _ = models.behaviours("MCJointGen", "MCJoint_gen.cfg", limit, seed)
+    out = []
+    for h in beh:
+        if not h or h[0]["op"] != "create":
+            continue
+        cmds, exp = [], []
+        for c in h:
+            if c["op"] == "create":
+                cmds.append(joint_cmd(0, c["b"], 0, (F_ABSENT, 0)))
+            elif c["op"] == "alloc":
+                cmds.append("jraw 0 %d %d" % (c["a"], c["b"]))
+            else:
+                cmds.append("jrawfree 0 %d" % c["a"])
+            exp.append(c["res"] + "=" + ",".join("%d@%d+%d" % tuple(pc) for pc in c["live"]))
+        out.append((hdr("leaf", "e3", "0" if h[0]["a"] == 0 else "1", tag="tlc-joint", jexpect="|".join(exp), jres=h[0]["a"]), cmds))
+    return out
+
+
 def jobs_c03(prop, tier, seed):
     """joint memory as a fixed source that runs out (C03)"""
     return _jobs(prop, tier, seed, ["base", "dbg"], [sc_fit, sc_raw], 150 if tier == "quick" else 400)
@@ -410,6 +433,9 @@ def jobs_c11(prop, tier, seed):
     J = _jobs(prop, tier, seed, ["rel", "base", "dbg"], [sc_fit, sc_raw, sc_orders, sc_joint_create],
               150 if tier == "quick" else 400)
     J.append(Job("base", DRV[0], DRV[1], known_finding_execs(), "known"))
+    ex = model_joint_execs(120 if tier == "quick" else 2500, seed)
+    for cfg in ("rel", "base", "dbg"):
+        J.append(Job(cfg, DRV[0], DRV[1], ex, "tlc-joint"))
     return J
 
 
